@@ -244,6 +244,9 @@ def build_crate(jobs):
     open(os.path.join(src, 'main.rs'), 'w').write(mods + '\nfn main() {\n    std::panic::set_hook(Box::new(|_| {}));\n' + runs + '}\n')
     env = dict(os.environ, CARGO_NET_OFFLINE='true')
     p = subprocess.run('cargo build --offline 2>&1', shell=True, cwd=CRATE, env=env, stdout=subprocess.PIPE, text=True, timeout=3000)
+    if p.returncode != 0 and cl.is_cache_damage(p.stdout) and not re.search(r'src/g\d+_', p.stdout):
+        shutil.rmtree(os.path.join(cl.VERIF, 'target', 'astrun'), ignore_errors=True)
+        p = subprocess.run('cargo build --offline 2>&1', shell=True, cwd=CRATE, env=env, stdout=subprocess.PIPE, text=True, timeout=3000)
     return status, p.returncode, p.stdout
 
 
